@@ -139,7 +139,7 @@ def run(chk, replay=None):
                     dk = TwoBodyDecay.from_transition(tr, node)
                     where.setdefault(dk, (i, list(ampl.topo.attached(tr.topology, dk.parent.id))))
             records.append({"ev": "Start", "tid": tid, "trs": atrs})
-            if bi == 0:
+            if bi == 0 or bi == len(behs) - 1:   # (the first and the last builder of the reaction: other builders have lived in between)
                 ok = all(sel[(reaction.transitions[i], next(n for n in reaction.transitions[i].topology.nodes if TwoBodyDecay.from_transition(reaction.transitions[i], n) == dk))] is sel[dk] for dk, (i, _) in where.items())
                 records.append({"ev": "Shape", "tid": tid, "n": len(sel), "tuple_lookup_ok": int(ok), "all_non_dynamic": int(all(v is create_non_dynamic for v in sel.values()))})
             # Formulate is always enabled in DynSel: the driver interleaves it after assignments
@@ -215,7 +215,9 @@ def run(chk, replay=None):
         parts = {s.particle.name: s.particle for t in reaction.transitions for s in t.states.values()}
         q = lambda x: int(round(float(x) * 10**6))  # noqa: E731
         for n in rnames:
-            p = parts[n]
+            p = parts.get(n)
+            if p is None:
+                continue   # a decay in the selector that is not of this reaction: the Shape record of the builders reports it
             latex = p.latex if p.latex else p.name
             mk, wk = f"m_{{{latex}}}", Rf"\Gamma_{{{latex}}}"
             if mk in pd and wk in pd:
